@@ -2031,6 +2031,21 @@ class Stores:
                     bc = bool_local_cond(cn)
                     if bc:
                         conds.append((bc[0], bc[1] == pol))
+                elif kind == "arm":
+                    # `match visible { true => .., false => .. }` (or `_` for the remaining value) is `if visible .. else ..`
+                    sl = bool_local_cond(cn["scrut"]) if (H.peel(cn["scrut"]).get("ty") == "bool") else None
+                    if sl:
+                        def arm_bool(a):
+                            pe = a["pat"].get("e") if a["pat"].get("k") == "pexpr" else None
+                            v = pe.get("v") if pe and pe.get("t") == "bool" else None
+                            return v if isinstance(v, bool) and "guard" not in a else None
+                        v = arm_bool(cn["arms"][pol])
+                        if v is None and H.pat_peel(cn["arms"][pol]["pat"]).get("k") in ("wild", "bind") and "guard" not in cn["arms"][pol]:
+                            prev = {arm_bool(a) for a in cn["arms"][:pol]}
+                            if prev in ({True}, {False}):
+                                v = not prev.pop()
+                        if v is not None:
+                            conds.append((sl[0], sl[1] == v))
             if pk == "assign" and p["r"] is child:
                 for pl, cs in self.place_of(p["l"], body):
                     out.append((pl, conds + cs))
